@@ -22,8 +22,12 @@ Pos(c, alpha) == IF \E k \in 1..Len(alpha) : Char(alpha, k) = c
                  THEN CHOOSE k \in 1..Len(alpha) : Char(alpha, k) = c
                  ELSE 0
 
-UpChar(c) == LET k == Pos(c, LowerAlpha) IN IF k = 0 THEN c ELSE Char(UpperAlpha, k)
-LoChar(c) == LET k == Pos(c, UpperAlpha) IN IF k = 0 THEN c ELSE Char(LowerAlpha, k)
+\* constant lookup tables (evaluated once by TLC)
+UpMap == [c \in { Char(LowerAlpha, k) : k \in 1..26 } |-> Char(UpperAlpha, Pos(c, LowerAlpha))]
+LoMap == [c \in { Char(UpperAlpha, k) : k \in 1..26 } |-> Char(LowerAlpha, Pos(c, UpperAlpha))]
+DigitMap == [c \in { Char(DigitChars, k) : k \in 1..10 } |-> Pos(c, DigitChars) - 1]
+UpChar(c) == IF c \in DOMAIN UpMap THEN UpMap[c] ELSE c
+LoChar(c) == IF c \in DOMAIN LoMap THEN LoMap[c] ELSE c
 
 RECURSIVE UpFrom(_, _), LoFrom(_, _)
 UpFrom(s, i) == IF i > Len(s) THEN "" ELSE UpChar(Char(s, i)) \o UpFrom(s, i + 1)
@@ -31,19 +35,19 @@ LoFrom(s, i) == IF i > Len(s) THEN "" ELSE LoChar(Char(s, i)) \o LoFrom(s, i + 1
 ToUpper(s) == UpFrom(s, 1)
 ToLower(s) == LoFrom(s, 1)
 
-IsDigit(c) == Pos(c, DigitChars) > 0
-DigitVal(c) == Pos(c, DigitChars) - 1
+IsDigit(c) == c \in DOMAIN DigitMap
+DigitVal(c) == DigitMap[c]
 IsBlank(c) == c = " " \/ c = "\t"
 
 StartsWith(s, pre) == Len(s) >= Len(pre) /\ SubSeq(s, 1, Len(pre)) = pre
 EndsWith(s, suf) == Len(s) >= Len(suf) /\ SubSeq(s, Len(s) - Len(suf) + 1, Len(s)) = suf
-Contains(s, sub) == \E i \in 1..(Len(s) - Len(sub) + 1) : SubSeq(s, i, i + Len(sub) - 1) = sub
+HasSub(s, sub) == \E i \in 1..(Len(s) - Len(sub) + 1) : SubSeq(s, i, i + Len(sub) - 1) = sub
 
 RECURSIVE JoinFrom(_, _, _)
 JoinFrom(list, i, sep) == IF i > Len(list) THEN ""
                           ELSE IF i = Len(list) THEN list[i]
                           ELSE list[i] \o sep \o JoinFrom(list, i + 1, sep)
-Join(list, sep) == JoinFrom(list, 1, sep)
+JoinStr(list, sep) == JoinFrom(list, 1, sep)
 
 \* ---- $<BOOL:string> -------------------------------------------------------
 \* "Evaluates to 0 if any of the following is true: string is empty, string is
@@ -84,7 +88,7 @@ VerCmp(s1, s2) == VerCmpFrom(VerComps(s1), VerComps(s2), 1)
 IsPlainVersion(s) == /\ Len(s) > 0
                      /\ \A i \in 1..Len(s) : IsDigit(Char(s, i)) \/ Char(s, i) = "."
                      /\ Char(s, 1) # "." /\ Char(s, Len(s)) # "."
-                     /\ ~Contains(s, "..")
+                     /\ ~HasSub(s, "..")
 
 \* ---- paths (for $<TARGET_FILE_NAME>, $<TARGET_FILE_DIR>) ----------------------
 LastSlash(s) == IF \E i \in 1..Len(s) : Char(s, i) = "/"
